@@ -71,7 +71,7 @@ def run(tier, seed):
     for k in ("pooled", "lz4"):
         vf.must_violate(wd, "CodecPool.tla", f"MC_CodecPool_{k}_asfound.cfg", f"CodecPool {k}")
     sim = vf.emit_scenarios(wd, "MC_CodecPool.tla", "MC_CodecPool_sim.cfg", minimum=20,
-                            simulate=60 if quick else 1500, depth=9, seed=seed)
+                            simulate=60 if quick else 6000, depth=9, seed=seed)
     seen, scenarios = set(), []
     for s in sim:
         k = repr(s)
